@@ -36,6 +36,10 @@ pub struct Params {
     /// the node runs with adaptive indexing enabled (a different execution path after planning)
     #[serde(default)]
     pub adaptive: bool,
+    /// the node's reads of chunk data (schema inference inside the registration, the scan) are scheduling points too,
+    /// so a query can be parked while it holds the registration lock
+    #[serde(default)]
+    pub gate_data: bool,
 }
 
 const SEC: i64 = 1_000_000_000;
@@ -136,7 +140,31 @@ impl Scenario for C10Scenario {
         let gating = Arc::new(std::sync::atomic::AtomicBool::new(false));
         let g2 = gating.clone();
         let gm: Arc<dyn MetadataClient> = GatedMeta::with_filter(local.clone(), "Q", ctl, move |_| g2.load(std::sync::atomic::Ordering::SeqCst));
-        let node = Arc::new(new_node_with(&mem, gm.clone(), self.p.adaptive).await);
+        let g3 = gating.clone();
+        let gate_data = self.p.gate_data;
+        let node_store: Arc<dyn ObjectStore> = if gate_data {
+            // only the first two data reads of every query are scheduling points (they fall into the schema inference of
+            // its registration); gating all of them makes the schedule space explode without reaching anything new
+            let seen: Arc<Mutex<BTreeMap<String, usize>>> = Arc::new(Mutex::new(BTreeMap::new()));
+            crate::engine::store::GatedStore::with_filter(mem.clone(), "Q", ctl, &crate::engine::store::StoreLog::new(), move |kind, path| {
+                if !(g3.load(std::sync::atomic::Ordering::SeqCst) && (kind == "GET" || kind == "HEAD") && path.ends_with(".parquet")) {
+                    return false;
+                }
+                let actor = Ctl::current_actor_name().map(|a| a.to_string()).unwrap_or_default();
+                let mut m = seen.lock().unwrap();
+                let n = m.entry(actor).or_insert(0);
+                *n += 1;
+                *n <= 2
+            })
+        } else {
+            mem.clone()
+        };
+        let node = Arc::new(new_node_with(&node_store, gm.clone(), self.p.adaptive).await);
+        // The node has seen the stored files' schema before (as after any earlier query): on a node whose `metrics` is
+        // still the start-up placeholder, Int64 time bounds cannot be coerced against the placeholder's Timestamp column,
+        // every window is unbounded, every query selects every chunk and no two selections differ.
+        let all_paths: Vec<String> = (1..=3).map(|h| format!("t/data/hour{h}.parquet")).collect();
+        node.engine.register_metrics_table_for_chunks(&all_paths).await.expect("schema warm-up");
         for w in &self.p.warm {
             let r = run_query(&node, gm.clone(), w).await;
             self.results.lock().unwrap().insert(w.name.clone(), r);
@@ -185,6 +213,9 @@ impl Scenario for C10Scenario {
                 });
             }
         }
+        if trace.iter().any(|l| l.contains("get_chunks_with_predicates(-9223372036854775808")) {
+            f.flags.push("unbounded_window".into());
+        }
         f.outcome = format!("{results:?}");
         f
     }
@@ -227,7 +258,7 @@ fn q(name: &str, hours_ago: i64, select: &str, tenant: &str, streaming: bool) ->
 pub fn plans(tier: &str) -> Vec<(Params, Cost)> {
     let all = Cost { preempt: 1000, ..Cost::ZERO };
     let sel = "value_f64, host";
-    let p = |name: &str, warm: Vec<QuerySpec>, queries: Vec<QuerySpec>| Params { name: name.into(), queries, warm, adaptive: false };
+    let p = |name: &str, warm: Vec<QuerySpec>, queries: Vec<QuerySpec>| Params { name: name.into(), queries, warm, adaptive: false, gate_data: false };
     let mut v = vec![
         (p("two queries, disjoint windows", vec![], vec![q("Q1", 1, sel, "default", false), q("Q2", 2, sel, "default", false)]), all),
         (p("query + aggregate, disjoint windows", vec![], vec![q("Q1", 1, "count(*), min(value_f64)", "default", false), q("Q2", 3, "value_f64", "default", false)]), all),
@@ -244,6 +275,11 @@ pub fn plans(tier: &str) -> Vec<(Params, Cost)> {
     // the same races on a node with adaptive indexing enabled (execution goes through execute_plan_with_indexes)
     v.push((Params { adaptive: true, ..p("adaptive indexing: two queries, disjoint windows", vec![], vec![q("Q1", 1, "count(*)", "default", false), q("Q2", 2, sel, "default", false)]) }, all));
     v.push((Params { adaptive: true, ..p("adaptive indexing: warm node (A served), then B vs A again, two tenants", vec![q("A1", 1, sel, "default", false)], vec![q("B", 2, sel, "tenant-b", false), q("A2", 1, "host, value_f64", "default", false)]) }, all));
+    // chunk-data reads as scheduling points: a query can be parked inside its registration (holding the lock) while
+    // the other one queues on the lock
+    let pre = Cost { preempt: if tier == "thorough" { 3 } else { 2 }, ..Cost::ZERO };
+    v.push((Params { gate_data: true, ..p("data reads gated: two queries, disjoint windows", vec![], vec![q("Q1", 1, "count(*)", "default", false), q("Q2", 2, sel, "default", false)]) }, pre));
+    v.push((Params { gate_data: true, ..p("data reads gated: query vs streaming historical phase", vec![], vec![q("S1", 1, sel, "default", true), q("Q2", 2, "count(*)", "default", false)]) }, pre));
     if tier == "thorough" {
         v.push((p("three queries, two tenants", vec![], vec![q("Q1", 1, sel, "default", false), q("Q2", 2, sel, "default", false), q("Q3", 3, "value_f64", "tenant-b", false)]), Cost { preempt: 4, ..Cost::ZERO }));
         v.push((p("two streaming subscriptions", vec![], vec![q("S1", 1, sel, "default", true), q("S2", 2, sel, "default", true)]), all));
@@ -264,6 +300,9 @@ pub fn run(tier: &str) -> i32 {
         let st = explore(factory(p.clone()), &cfg);
         for o in st.outcomes.keys() {
             outcomes.insert(o.clone());
+        }
+        if st.flags.contains_key("unbounded_window") {
+            rep.machinery(format!("vacuity guard: in `{}` a query's time window was extracted as unbounded, so the queries' chunk selections do not differ", p.name));
         }
         println!(
             "  C10 {:<48} executions={:<7} transitions={:<8} depth={:<3} outcomes={:<3} violation-sigs={:<2} {:.1}s{}",
